@@ -606,20 +606,20 @@ def run(ctx):
     viol = None
     stats = {}
     if not b2:
-        stats, viol, qb = quorum_part(ctx, d)
-        broken = broken or qb
-        if viol is None and not qb:
-            st2, viol, sb = sim_part(ctx, d)
-            stats.update(st2)
-            broken = broken or sb
-        if viol is None and not broken:
-            st3, viol, cb = cc_part(ctx, d)
-            stats.update(st3)
-            broken = broken or cb
-        if viol is None and not broken:
-            st4, viol, pb_ = pv_part(ctx, d)
-            stats.update(st4)
-            broken = broken or pb_
+        # the four parts are independent (own scratch directories): run them side by side and
+        # report, in this fixed order, the first violation / broken tie
+        import concurrent.futures
+        parts = [("pq", quorum_part), ("ps", sim_part), ("pc", cc_part), ("pp", pv_part)]
+        for name, _ in parts:
+            (d / name).mkdir()
+        with concurrent.futures.ThreadPoolExecutor(max_workers=4) as ex:
+            futs = [ex.submit(fn, ctx, d / name) for name, fn in parts]
+            results = [f.result() for f in futs]
+        for st_, v_, b_ in results:
+            stats.update(st_)
+            if viol is None and not broken:
+                viol = v_
+                broken = broken or b_
     rc = 0
     if viol:
         lib.violation(PID, viol, found_input=viol.get("found_input", True))
